@@ -61,6 +61,16 @@ claims.update({
    'Not decided: convergence over arbitrary event histories, etcd semantics, kube EventHandler (not covered by a rule yet). Two genuine defects found by these rules were repaired (580f3ce, e1532fa).',
    'DESIGN.md 3.C13'),
 })
+claims.update({
+ 'C03': ('other', 'path enumeration of the embedded Lua scripts (gopher-lua AST) with decision tables over the orderings they test, composed with the Go reply mapping; KEYS/ARGV role agreement by value flow; path rules of TakeCtx/reserveN/startMonitor/waitForRedis',
+   'Period script: counter +1 exactly once, TTL armed exactly when the counter is 1, answer by comparing with ARGV[1]; composed with TakeCtx: below quota => Allowed, at => HitQuota, above => OverQuota, other code or store error => (Unknown, error); Go passes [quota, period s]. Token script: filled = min(capacity, last + max(0, now-ts)*rate), grant iff filled >= requested, stores filled-requested / filled, both keys always rewritten with TTL; Go passes both keys and [rate, burst, now.Unix(), n] by role; reserveN grants only on reply 1 or via the same-rate local limiter with the caller\'s now/n; redis.Nil and ctx errors deny; redisAlive cleared only when a monitor starts (once, under lock), set only after a successful Ping.',
+   'Not decided: the joint bound burst + rate*elapsed across interleavings and outages (needs Redis execution model and time); EVAL atomicity assumed.',
+   'DESIGN.md 3.C03'),
+ 'C19': ('other', 'path enumeration of the lock/release Lua scripts (guards and flags of every SET/DEL), value flow + normal form + arithmetic width of the lease, reply mapping on all Go paths, who-writes the id',
+   'Every SET stores ARGV[1] under KEYS[1] with PX ARGV[2]; a SET not guarded by GET==ARGV[1] carries NX; the owner branch refreshes the lease and returns OK; release deletes only under GET==ARGV[1], else 0; Go uses the store only through one EVAL of exactly these scripts with [key]/[id, seconds*1000+500 computed in int]; Acquire true only for OK with nil error; Release true iff reply 1; id written only by the constructor from a 16-char random string.',
+   'Not decided: mutual exclusion over histories with expiry (Redis time), uniqueness of random ids (probabilistic).',
+   'DESIGN.md 3.C19'),
+})
 not_built_reason = 'static rules designed (DESIGN.md section 3) but not built yet in this revision'
 
 checks, na = [], []
